@@ -5,7 +5,7 @@ import networkx as nx
 
 from common import Atom, Case, Run, call_impl, prepare, enc_graph, sx
 
-PROOFS = ["FGVerif.Proofs.C13"]
+PROOFS = ["FGVerif.Proofs.C13", "FGVerif.Proofs.C13Any"]
 
 ATOMS = ["C", "N", "O", "c", "S", "Cl", "n"]
 SUBS = ["", "C", "NO", "C(=O)O", "c1ccccc1", "C<2,1>C", "S{q}", "C1CC1", "N(C)(C)C", "C=1CC=1", "C.O",
@@ -265,13 +265,19 @@ def run(tier, seed):
         outs = r.evaluate(batch)
         check_model_spec(r, outs)
         for o in outs:
-            if o.ok_reply and len(o.extra) == 3:
+            if o.ok_reply and len(o.extra) >= 3:
                 if o.case.in_domain and o.extra[1] != "1":
                     stats["inc_bad"] += 1
                 if o.case.in_domain and o.extra[2] != "1":
                     stats["exact_bad"] += 1
                 if (o.extra[0] == "1") != (o.case.in_domain and o.case.meta.get("ordered", False)):
                     stats["dom_mismatch"] += 1
+                # the full domain of the theorems (`inDomainAny`: ids 0..n-1 in any node order) = the oracle's domain
+                if len(o.extra) >= 4:
+                    if (o.extra[3] == "1") != bool(o.case.in_domain):
+                        stats["dom_mismatch"] += 1
+                    if o.case.in_domain:
+                        r.count("theorem_domain:ordered(inDomain)" if o.extra[0] == "1" else "theorem_domain:shuffled_order(inDomainAny)")
 
     for k in range(n_cases):
         if len(cases) >= 2000:
